@@ -150,10 +150,9 @@ func (m *Machine) rtypeMethod(t types.Type, name string, args []value) value {
 	case "Field":
 		return m.structFieldVal(t.Underlying().(*types.Struct), m.concLen(args[0].(Scalar), "Type.Field"))
 	case "FieldByName":
-		name, _ := args[0].(*String).concrete()
 		st := t.Underlying().(*types.Struct)
 		for i := 0; i < st.NumFields(); i++ {
-			if st.Field(i).Name() == name {
+			if m.nameIs(args[0].(*String), st.Field(i).Name()) {
 				return Tuple{m.structFieldVal(st, i), boolS(true)}
 			}
 		}
@@ -316,10 +315,9 @@ func init() {
 		return m.mkValue(cur)
 	})
 	V("FieldByName", func(m *Machine, r *rval, a []value) value {
-		name, _ := a[0].(*String).concrete()
 		st := r.t.Underlying().(*types.Struct)
 		for i := 0; i < st.NumFields(); i++ {
-			if st.Field(i).Name() == name {
+			if m.nameIs(a[0].(*String), st.Field(i).Name()) {
 				return m.mkValue(&rval{t: st.Field(i).Type(), loc: pathPlus(r.loc, i), addr: r.addr})
 			}
 		}
@@ -513,3 +511,15 @@ func (m *Machine) appendVals(s Slice, add []value, et types.Type) Slice {
 }
 
 var _ = fmt.Sprint
+
+// nameIs: does the (possibly symbolic) string s equal the concrete name? Forks when undecided.
+func (m *Machine) nameIs(s *String, name string) bool {
+	eq := strEq(s, strOf(name))
+	if eq.isTrue() {
+		return true
+	}
+	if eq.isFalse() {
+		return false
+	}
+	return m.branch(eq)
+}
